@@ -50,7 +50,7 @@ VIX = "dask_array.slicing._vindex"
 ARG = "dask_array.creation._arange"
 DB = "dask.blockwise"
 MT = "dask_array._materialize"
-MODS = [MT, "dask_array.core._blockwise_funcs", "dask_array.core._conversion", EX, BW, CU, RC, FA, IOB, SB, SU, "dask_array.slicing", CO, NC, TR, XP, SQ, BT, CC, SK, RD, RCM, SHF, VIX, ARG, "dask_array._overlap", "dask_array._map_blocks", "dask_array._chunk", "dask.layers", "dask_array.reductions._sliding_window", "dask_array.manipulation._reshape", "dask_array.reductions._arg_reduction", "dask_array.creation._diag", "dask_array.creation._diagonal", "dask_array.routines._unique", "dask_array.creation._ones_zeros", "dask_array.creation._utils", "dask_array.routines._topk", "dask_array.io._from_graph", DB]
+MODS = [MT, "dask_array.core._blockwise_funcs", "dask_array.core._conversion", EX, BW, CU, RC, FA, IOB, SB, SU, "dask_array.slicing", CO, NC, TR, XP, SQ, BT, CC, SK, RD, RCM, SHF, VIX, ARG, "dask_array._overlap", "dask_array._map_blocks", "dask_array._chunk", "dask.layers", "dask_array.reductions._sliding_window", "dask_array.manipulation._reshape", "dask_array.reductions._arg_reduction", "dask_array.creation._diag", "dask_array.creation._diagonal", "dask_array.routines._unique", "dask_array.creation._ones_zeros", "dask_array.creation._utils", "dask_array.routines._topk", "dask_array.io._from_graph", "dask_array.manipulation._roll", "dask_array.manipulation._flip", "dask_array.creation._tile", "dask_array.creation._pad", "dask_array.creation._repeat", "dask_array.routines._diff", "dask_array.reductions._cumulative", "dask_array.routines._where", "dask_array.stacking._block", "dask_array.stacking._simple", "dask_array.routines._insert_delete", "dask_array.routines._triangular", "dask_array.routines._outer", "dask_array._ufunc", DB]
 STUBS = SHIM_LIST + [
     "expression classes -> symx.nodes (real methods on cloned code; constructors/tokenize bypassed, structural names); the "
     "Array collection class -> subclass with cloned methods",
@@ -594,6 +594,25 @@ def p_view(w, E, p, dtype, order="C"):
     return Prog(out.expr, ref, p.dsk)
 
 
+def p_pub(w, p, module, name, ref, *a, **k):
+    """a public function/method of the repository applied to the collection over p (module=None: a method of Array)"""
+    coll = w.fn(NC, "new_collection")(p.node)
+    if module is None:
+        out = getattr(coll, name)(*a, **k)
+    else:
+        out = w.fn(module, name)(coll, *a, **k)
+    return Prog(out.expr, ref(p.ref), p.dsk)
+
+
+def p_pub_many(w, ps, module, name, ref, *a, **k):
+    colls = [w.fn(NC, "new_collection")(q.node) for q in ps]
+    out = w.fn(module, name)(colls, *a, **k)
+    dsk = {}
+    for q in ps:
+        dsk.update(q.dsk)
+    return Prog(out.expr, ref([q.ref for q in ps]), dsk)
+
+
 def p_take(w, E, p, axis, index):
     """x[..., [i, j, ...], ...] through Array.__getitem__ (normalize_index -> slice_wrap_lists -> take -> Shuffle);
     the index values are concrete, the axis is long enough to hold them"""
@@ -721,6 +740,23 @@ def programs(tier):
     reg("map_blocks(f_info,sliding_window_view(x3,W,0).sum(-1))", lambda w, E: p_map_blocks(w, E, p_sliding_sum(w, E, source(w, E, "x", (3,)), 0)), 14)
     reg("x2x2.view('f4')", lambda w, E: p_view(w, E, source(w, E, "x", (2, 2)), "f4"), 2)
     reg("x2x2.view('f4',order='F')", lambda w, E: p_view(w, E, source(w, E, "x", (2, 2)), "f4", "F"), 2)
+    # thin public wrappers over the same expression classes (axis arithmetic, argument plumbing)
+    TRm, FLm, RLm, TIm, SIm, IDm, XPm = ("dask_array.manipulation._transpose", "dask_array.manipulation._flip", "dask_array.manipulation._roll",
+                                         "dask_array.creation._tile", "dask_array.stacking._simple", "dask_array.routines._insert_delete",
+                                         "dask_array.manipulation._expand")
+    reg("swapaxes(x2x2,0,1)", lambda w, E: p_pub(w, source(w, E, "x", (2, 2)), None, "swapaxes", lambda X: np.swapaxes(X, 0, 1), 0, 1), 1)
+    reg("moveaxis(x2x1x2,0,-1)", lambda w, E: p_pub(w, source(w, E, "x", (2, 1, 2)), TRm, "moveaxis", lambda X: np.moveaxis(X, 0, -1), 0, -1), 2)
+    reg("squeeze(expand_dims(x2,(0,)))", lambda w, E: p_pub(w, p_expand(w, source(w, E, "x", (2,)), (0,)), None, "squeeze", lambda X: X[0]), 1)
+    reg("flip(x2x2,0)", lambda w, E: p_pub(w, source(w, E, "x", (2, 2)), FLm, "flip", lambda X: np.flip(X, 0), 0), 2)
+    reg("rot90(x2x2)", lambda w, E: p_pub(w, source(w, E, "x", (2, 2)), FLm, "rot90", lambda X: np.flip(np.transpose(X, (1, 0)), 0)), 2)
+    reg("x2[::-1]+x2", lambda w, E: (lambda p: p_elemwise(w, operator.add, p_slice(w, p, (slice(None, None, -1),)), p))(source(w, E, "x", (2,))), 4)
+    reg("roll(x3,1,axis=0)", lambda w, E: p_pub(w, source(w, E, "x", (3,), lo=2), RLm, "roll", lambda X: np.concatenate([X[-1:], X[:-1]]), 1, axis=0), 2)
+    reg("tile(x3,2)", lambda w, E: p_pub(w, source(w, E, "x", (3,)), TIm, "tile", lambda X: np.concatenate([X, X]), 2), 2)
+    reg("atleast_2d(x3)", lambda w, E: p_pub(w, source(w, E, "x", (3,)), XPm, "atleast_2d", lambda X: X[None]), 1)
+    reg("concatenate([x2,y1,z2],0)", lambda w, E: p_concat(w, [source(w, E, "x", (2,)), source(w, E, "y", (1,)), source(w, E, "z", (2,))], 0), 2)
+    reg("hstack([x2,y2])", lambda w, E: p_pub_many(w, [source(w, E, "x", (2,)), source(w, E, "y", (2,))], SIm, "hstack", lambda R: np.concatenate(R)), 2)
+    reg("append(x2,y2)", lambda w, E: (lambda a, b: Prog(w.fn(IDm, "append")(w.fn(NC, "new_collection")(a.node), w.fn(NC, "new_collection")(b.node)).expr,
+                                                            np.concatenate([a.ref, b.ref]), {**a.dsk, **b.dsk}))(source(w, E, "x", (2,)), source(w, E, "y", (2,))), 2)
     # point-wise indexing with two integer arrays (entries enumerated by forking; sizes of the other axes symbolic)
     reg("x(2,1)x2.vindex[[p,q],:]... two arrays: x.vindex[[p0,p1],:,[q0,2]]", lambda w, E: _vindex_prog(w, E, ((2, 1), "s", (1, 2)), 2, {(2, 1): 2}), 9)
     reg("x.vindex[:,[p0,1],:,[q0,q1]] (4-d, separated axes)", lambda w, E: _vindex_prog(w, E, ("s", (1, 1), "s", (2,)), 2, {(1, 1): 1}), 9)
